@@ -9,7 +9,9 @@ the working tree on every run (Src.top_level / Src.item).  Rewrite rules applied
   O1  E.matches('\\n').count()                      -> vp_count_nl(&E)      assumed: r == count_nl(E@)
   O2  E.chars().count()                            -> vp_char_count(&E)    assumed: r == E@.len()
   O3  E.rsplit('\\n').next().unwrap_or("")          -> vp_last_line(&E)     assumed: r@ == suffix after last '\\n'
-  O7  strip_trailing_whitespace                    -> external_body        assumed: r@ == strip_tw(s@, newline@) (uninterpreted)
+  O10 s.split(newline).enumerate()                 -> vp_split_enumerate(s, newline)   (exact text, strip_trailing_whitespace only) assumed: element k is
+      (k, k-th piece), the pieces joined by newline give s back, no piece contains newline, there is at least one piece
+  O11 line.trim_end_matches([' ', '\\t'])           -> vp_trim_end_blank(line)          (exact text) assumed: r == line without its trailing ' ' / '\\t' chars
   O9  E[a..].iter().all(|b| *b == b' ')            -> vp_all_spaces(E, a)  assumed: r == all bytes from a are 0x20
   G1  ghost field `offs: Ghost<Seq<nat>>` in State (+ its initialiser); in front of every `state.anchors.push(` the offset of
       the output end is pushed to it (and the output is snapshotted in the ghost local `vp_mid`)
@@ -35,8 +37,11 @@ TRUSTED = {
     r"fn vp_char_count": "O2: `E.chars().count()` outlined to vp_char_count (external_body); assumed: result == number of chars of E",
     r"fn vp_last_line": "O3: `E.rsplit('\\n').next().unwrap_or(\"\")` outlined to vp_last_line (external_body); assumed: result is the suffix of E after its last '\\n' (all of E if none)",
     r"fn vp_all_spaces": "O9: `E[a..].iter().all(|b| *b == b' ')` outlined to vp_all_spaces (external_body); assumed: requires a <= len, result == every byte from a on is 0x20",
-    r"fn strip_trailing_whitespace": "O7: strip_trailing_whitespace is external_body; assumed: result == strip_tw(s, newline), an uninterpreted function (in words: trailing ' '/'\\t' removed per line, "
-                                     "which moves no non-blank char to another line or column); the anchor claims are stated relative to the unstripped output",
+    r"fn vp_split_enumerate": "O10: `s.split(newline).enumerate()` outlined to vp_split_enumerate (external_body, collected into a Vec); assumed: element k is (k, k-th piece), "
+                              "the pieces joined by newline give s back, no piece contains newline, at least one piece",
+    r"fn vp_trim_end_blank": "O11: `line.trim_end_matches([' ', '\\t'])` outlined to vp_trim_end_blank (external_body); assumed: result == line without its trailing ' ' / '\\t' chars "
+                             "(trim_blank: nothing else is removed)",
+    r"String::with_capacity": "assume_specification String::with_capacity: the new string is empty",
     r"String::len": "assume_specification String::len: result == length of the UTF-8 encoding (uninterpreted utf8()) of the string",
     r"String::as_bytes": "assume_specification String::as_bytes: result == the UTF-8 encoding (uninterpreted utf8()) of the string",
     r"String::truncate": "assume_specification String::truncate(n): requires n >= byte length or n is the byte length of some char prefix (char boundary, else it panics); "
@@ -56,7 +61,7 @@ O_RULES = [
     ("O2", r"([A-Za-z_][A-Za-z_0-9\.]*)\.chars\(\)\.count\(\)", r"vp_char_count(&\1)"),
     ("O3", r"([A-Za-z_][A-Za-z_0-9\.]*)\.rsplit\('\\n'\)\.next\(\)\.unwrap_or\(\"\"\)", r"vp_last_line(&\1)"),
     ("O9", r"([A-Za-z_][A-Za-z_0-9]*)\[([^\]\n]+?)\.\.\]\.iter\(\)\.all\(\|b\| \*b == b' '\)", r"vp_all_spaces(\1, \2)"),
-    ("G2", r"\bfor ([A-Za-z_][A-Za-z_0-9]*) in ", r"for \1 in vp_it: "),
+    ("G2", r"\bfor (\([^()]*\)|[A-Za-z_][A-Za-z_0-9]*) in ", r"for \1 in vp_it: "),
 ]
 RECORD = "proof { vp_mid = state.out@; } state.offs = Ghost(state.offs@.push(state.out@.len()));\n"
 
@@ -314,7 +319,7 @@ def c_render_inner(f):
             used(state) + stack_cost(stack@, *opts) <= lim(),""")
     f.after_loop(0, "    proof { assert(vp_witness(state.out@, state.offs@)); }")
     return ("requires wf_opts, wf_doc(doc, 0), doc_cost(doc, 0) <= 2^31 ensures there are raw output and offsets such that every returned anchor is true for raw "
-            "(text there, 1-based line/column of its offset, ordered) and text == raw (or strip_tw(raw) when strip_trailing_whitespace)")
+            "(text there, 1-based line/column of its offset, ordered) and text == raw (or is_strip_tw(text, raw, newline) when strip_trailing_whitespace)")
 
 
 def c_render_with_anchors(f):
@@ -329,6 +334,19 @@ def c_render(f):
     return "requires as render_inner ensures the string is the text of a rendered_ok result"
 
 
+def c_strip_trailing_whitespace(f):
+    f.replace("s.split(newline).enumerate()", "vp_split_enumerate(s, newline)", rule="O10")
+    f.replace("line.trim_end_matches([' ', '\\t'])", "vp_trim_end_blank(line)", rule="O11")
+    f.name_return("r")
+    f.spec("    ensures is_strip_tw(r@, s@, newline@),")
+    f.loop_spec(0, """        invariant 0 <= vp_it.index@ <= vp_it.seq().len(),
+            is_split(pieces_of(vp_it.seq()), s@, newline@),
+            forall|k: int| 0 <= k < vp_it.seq().len() ==> (#[trigger] vp_it.seq()[k]).0 == k,
+            out@ == join_trim_upto(pieces_of(vp_it.seq()), newline@, vp_it.index@),""")
+    return ("ensures is_strip_tw(r, s, newline): there are pieces with join(pieces, newline) == s, no piece containing newline, and "
+            "r == join of the pieces each without its trailing ' ' / '\\t' chars (loop body verified; split and trim_end_matches outlined O10/O11)")
+
+
 CONTRACTS = {
     "pad_for": c_pad_for,
     "flush_pending": c_flush_pending,
@@ -341,6 +359,7 @@ CONTRACTS = {
     "render_inner": c_render_inner,
     "render_with_anchors": c_render_with_anchors,
     "render": c_render,
+    "strip_trailing_whitespace": c_strip_trailing_whitespace,
 }
 
 _ST = "wf_opts(o), st_inv(st), anchors_ok(st), st.anchors@.len() > 0, st.pending_indent.is_some()"
@@ -355,6 +374,7 @@ CANARIES = [
     ("vp_canary_render_frame", "proof fn vp_canary_render_frame(frame: Frame<'_>, st: State, k: Seq<Frame<'_>>, o: RenderOpts) requires %s, frame_wf(frame), stack_wf(k), k.len() > 0, "
                                "used(st) + frame_cost(frame, o) + stack_cost(k, o) <= lim() ensures false {}" % _ST),
     ("vp_canary_render", "proof fn vp_canary_render(doc: Doc, o: RenderOpts) requires render_pre(doc, o), doc is Concat ensures false {}"),
+    ("vp_canary_strip", "proof fn vp_canary_strip(r: Seq<char>, s: Seq<char>, nl: Seq<char>) requires is_strip_tw(r, s, nl), s.len() > 1, r.len() < s.len() ensures false {}"),
     ("vp_canary_source_map", "proof fn vp_canary_source_map(r: Rendered, o: RenderOpts) requires rendered_ok(r, o), r.anchors@.len() > 1 ensures false {}"),
 ]
 
@@ -397,10 +417,6 @@ def build(ctx, res):
                 it.replace("        anchors: Vec::new(),\n    };", "        anchors: Vec::new(),\n        offs: Ghost(Seq::empty()),\n    };", rule="G1")
             if name in ("render_inner", "fits_flat"):
                 it.prepend("#[verifier::exec_allows_no_decreases_clause]")
-            if name == "strip_trailing_whitespace":
-                it.prepend("#[verifier::external_body]")
-                it.name_return("r")
-                it.spec("    ensures r@ == strip_tw(s@, newline@),")
             if name in CONTRACTS:
                 # broadcast lemmas are per proof context: function body and every loop body
                 it.at_start("    broadcast use vp_text_lemmas;")
@@ -409,7 +425,7 @@ def build(ctx, res):
                 res.clauses[name] = CONTRACTS[name](it)
                 expect.append(name)
                 seen.add(name)
-            elif name != "strip_trailing_whitespace":
+            else:
                 res.notes.append("render.rs fn %s is ingested without a contract" % name)
         items.append(it)
         vf.item(it)
@@ -446,7 +462,8 @@ def build(ctx, res):
                "lemma_trunc_spaces", "lemma_mul_bound", "lemma_newline", "lemma_prefix_index", "lemma_anchors_grow", "lemma_anchors_trunc",
                "lemma_anchor_push", "lemma_stack_push", "lemma_stack_len",
                "lemma_grows_add", "lemma_grows_add2", "lemma_grows_push", "lemma_grows_refl", "lemma_anchors_grow_b", "lemma_grows_trunc",
-               "lemma_trunc_then_add", "lemma_kept_same"]
+               "lemma_trunc_then_add", "lemma_kept_same",
+               "lemma_unblank_add", "lemma_trim_blank", "lemma_join_content", "lemma_strip_content", "lemma_rendered_text"]
     return [VerusJob("pretty", text, vf, expect, canaries=CANARIES, items=items, trusted=TRUSTED, rlimit=300, extra=["-V", "spinoff-all"])]
 
 
